@@ -1,6 +1,7 @@
 import S2T.Drv.Util
 import S2T.Model.Patch
 import S2T.Model.Cache
+import S2T.Model.CacheConc
 import S2T.Model.AesPatch
 import S2T.Model.TempScope
 namespace S2T.Drv.C15
@@ -118,6 +119,38 @@ def lru (j : Json) : Except String Json := do
       go c' r (o :: acc)
   return Json.mkObj [("steps", Json.arr (go [] keys []).toArray)]
 
+/-! ### `_get_round_keys` called by several threads (`S2T.CacheConc`) -/
+open S2T.Cache S2T.CacheConc in
+/-- what the harness sees of a thread between two turns: the event it is paused before -/
+def pendingOf : S2T.CacheConc.Pc → String
+  | .lookup => "acq" | .touch => "touch" | .expand => "gate" | .store => "acq" | .evict => "evict" | .done => "done"
+
+open S2T.Cache S2T.CacheConc in
+def lruConc (j : Json) : Except String Json := do
+  let cap ← getNat j "cap"
+  let pre ← natArr j "pre"
+  let keys ← natArr j "keys"
+  let sched ← natArr j "sched"
+  let bad ← natArr j "bad"
+  let legacy := (getBool j "legacy").toOption.getD false
+  let f : Nat → Except Unit Nat := fun k => if bad.contains k then .error () else .ok (k + 1000)
+  let c0 := lruRun cap f [] pre
+  let stepf := if legacy then Legacy.step cap f else Fixed.step cap f
+  let rec go (s : St Nat Nat Unit) : List Nat → List Json → List Json × St Nat Nat Unit
+    | [], acc => (acc.reverse, s)
+    | t :: r, acc =>
+      let s' := stepf s t
+      let pend := match s'.thr[t]? with | some x => pendingOf x.pc | none => "done"
+      go s' r (Json.arr #[Json.num (JsonNumber.fromNat t), Json.str pend, jNats (s'.cache.map (·.1))] :: acc)
+  let (tr, s) := go (init c0 keys) sched []
+  let resJ : Option (Res Nat Unit) → Json
+    | none => Json.null
+    | some (.ok v) => Json.num (JsonNumber.fromNat v)
+    | some (.err _) => Json.str "err"
+    | some .keyError => Json.str "keyerror"
+  return Json.mkObj [("trace", Json.arr tr.toArray), ("results", Json.arr ((results s).map resJ).toArray),
+                     ("order0", jNats (c0.map (·.1))), ("allDone", Json.bool (allDone s))]
+
 /-! ### font cache (`_ttf_get_glyph_features`)  parse k = k, feat k p gids = gids (the glyphs asked for) -/
 open S2T.Cache in
 def font (j : Json) : Except String Json := do
@@ -140,7 +173,13 @@ def font (j : Json) : Except String Json := do
       | (k, g) :: r, acc =>
         let (v, c') := FontFixed.get (fun k => k) (fun _ _ gids => gids) c k g
         goF c' r (jNats v :: acc)
-    return Json.mkObj [("results", Json.arr (goF [] cs []).toArray)]
+    -- which font's analysis answers each call (`parse k = k`): the harness reads it off the units-per-em
+    let rec goP (c : Cache Nat Nat) : List (Nat × List Nat) → List Nat → List Nat
+      | [], acc => acc.reverse
+      | (k, g) :: r, acc =>
+        let (v, c') := FontFixed.get (fun k => k) (fun _ p _ => p) c k g
+        goP c' r (v :: acc)
+    return Json.mkObj [("results", Json.arr (goF [] cs []).toArray), ("parsed", jNats (goP [] cs []))]
 
 /-! ### AES provider patch -/
 open S2T.AesPatch in
@@ -191,6 +230,7 @@ def handle (op : String) (j : Json) : Option (Except String Json) :=
   | "c15.patch_cover" => some (patchCover j)
   | "c15.patch_signature" => some (patchSignature j)
   | "c15.lru" => some (lru j)
+  | "c15.lru_conc" => some (lruConc j)
   | "c15.font" => some (font j)
   | "c15.aes" => some (aes j)
   | "c15.temp" => some (temp j)
